@@ -23,6 +23,9 @@ CLAIMED["C17"] = ("other", "language equality of the two real compiled matchers 
 CLAIMED["C06"] = ("proof", CLAIMED["C12"][1],
     "set-algebra contracts on the real bodies ('+' helpers, used/unused getters, classification loops of FileReport.generate, bad/deprecated loop of ProjectReport.generate, _identifier_of_license), lemmas for the cross-consistency of missing/unused/bad taken from the statement, and a finite exhaustive obligation over the bundled SPDX lists; one listed known finding (LicenseRef- classed bad)",
     "assumes the license_map invariant established by _find_licenses (loop body not under contract), Licensing.license_keys, pathlib suffix/stem/name", "4.6")
+CLAIMED["C04"] = ("proof", CLAIMED["C12"][1],
+    "contracts on the real bodies of _determine_license_path, Project.reuse_info_of (against a specification written from the statement, pointwise for an arbitrary value/source/source-type triple), ReuseTOML.find_annotations_item (last match), ReuseTOML.reuse_info_of and NestedReuseTOML.reuse_info_of (exception freedom, nearest-provider clean-up with step lemmas)",
+    "assumes reuse_info_of_file (C02), the REUSE.toml finder's ordering, pathlib relations; the walk loop's list contents and ReuseDep5.reuse_info_of are not under contract", "4.4")
 NOT_YET = "check not built yet in this session (work in progress; see DESIGN.md section 4 for the planned contracts)"
 props = [json.loads(l) for l in open(os.path.join(V, "properties.jsonl"))]
 checks, na = [], []
